@@ -256,33 +256,42 @@ Definition mlab_spectrum (wv x : list Q) (nfft ovl : nat) : list (list C) :=
 Definition mlab_scale (wv : list Q) (fs : Q) (sbf : bool) : Q :=
   if sbf then fs * sumsq wv else qsum wv * qsum wv.
 
-(* mlab.csd(x, y, NFFT, Fs, detrend_none, window, noverlap, scale_by_freq=sbf)[k], from the two spectra *)
-Definition mlab_csd_from (SX SY : list (list C)) (wv : list Q) (nfft : nat) (fs : Q) (sbf : bool) (k : nat) : C :=
+(* mlab.csd(x, y, NFFT, Fs, detrend_none, window, noverlap, scale_by_freq=sbf)[k], from the two spectra;
+   sc = mlab_scale wv fs sbf *)
+Definition mlab_csd_from (SX SY : list (list C)) (sc : Q) (nfft : nat) (k : nat) : C :=
   let nw := length SX in
   let term s := cmul (cconj (at2 SX s k)) (at2 SY s k) in
   let m := if (1 <? nw)%nat then cmean term nw else term 0%nat in
-  cscale ((if mlab_doubled nfft k then 2 else 1) / mlab_scale wv fs sbf) m.
+  cscale ((if mlab_doubled nfft k then 2 else 1) / sc) m.
 Definition mlab_csd (wv x y : list Q) (nfft : nat) (fs : Q) (ovl : nat) (sbf : bool) : nat -> C :=
   let SX := mlab_spectrum wv x nfft ovl in
   let SY := mlab_spectrum wv y nfft ovl in
-  fun k => mlab_csd_from SX SY wv nfft fs sbf k.
+  let sc := mlab_scale wv fs sbf in
+  fun k => mlab_csd_from SX SY sc nfft k.
 
 (* get_spectra(time_series, welch): fxy[i][j] = mlab.csd(ts[j], ts[i], ..., scale_by_freq=True) for i <= j,
-   zeros below the diagonal *)
+   zeros below the diagonal; `tbl` holds the windowed spectra of the channels *)
+Definition dense_fxy_tbl (tbl : list (list (list C))) (sc : Q) (nfft : nat) (i j k : nat) : C :=
+  if (i <=? j)%nat then mlab_csd_from (nth j tbl []) (nth i tbl []) sc nfft k else c0.
+Definition dense_tbl (ts : list (list Q)) (wv : list Q) (nfft : nat) (ovl : option nat) : list (list (list C)) :=
+  let o := match ovl with Some o => o | None => dense_default_overlap nfft end in
+  map (fun x => mlab_spectrum wv x nfft o) ts.
 Definition dense_fxy (ts : list (list Q)) (wv : list Q) (nfft : nat) (ovl : option nat) (fs : Q)
   : nat -> nat -> nat -> C :=
-  let o := match ovl with Some o => o | None => dense_default_overlap nfft end in
-  let tbl := map (fun x => mlab_spectrum wv x nfft o) ts in
-  fun i j k => if (i <=? j)%nat then mlab_csd_from (nth j tbl []) (nth i tbl []) wv nfft fs true k else c0.
+  let tbl := dense_tbl ts wv nfft ovl in
+  let sc := mlab_scale wv fs true in
+  fun i j k => dense_fxy_tbl tbl sc nfft i j k.
 
 (* coherency(): c[i][j] = fxy[i][j] / sqrt(fxy[i][i] * fxy[j][j]) for i <= j, c[j][i] = conj(c[i][j]) *)
 Definition cval_conj (v : cval) : cval :=
   match v with CZero => CZero | CDivSqrt a b c => CDivSqrt (cconj a) (cconj b) (cconj c) end.
+Definition dense_coh_of (f : nat -> nat -> nat -> C) (i j k : nat) : cval :=
+  if (i <=? j)%nat then CDivSqrt (f i j k) (f i i k) (f j j k)
+  else cval_conj (CDivSqrt (f j i k) (f j j k) (f i i k)).
 Definition dense_coh (ts : list (list Q)) (wv : list Q) (nfft : nat) (ovl : option nat) (fs : Q)
   : nat -> nat -> nat -> cval :=
   let f := dense_fxy ts wv nfft ovl fs in
-  fun i j k => if (i <=? j)%nat then CDivSqrt (f i j k) (f i i k) (f j j k)
-               else cval_conj (CDivSqrt (f j i k) (f j j k) (f i i k)).
+  fun i j k => dense_coh_of f i j k.
 End Dense.
 
 
